@@ -1558,7 +1558,12 @@ impl KotoVm {
             }
             TemporaryTuple(RegisterSlice { start, count }) => {
                 let count = *count;
-                if (index.unsigned_abs() as usize) < count {
+                let in_bounds = if index < 0 {
+                    (index.unsigned_abs() as usize) <= count
+                } else {
+                    (index as usize) < count
+                };
+                if in_bounds {
                     let index = signed_index_to_unsigned(index, count);
                     self.registers[start + index].clone()
                 } else {
@@ -1654,6 +1659,15 @@ impl KotoVm {
                 } else {
                     tuple.make_sub_tuple(index..tuple.len()).into()
                 }
+            }
+            TemporaryTuple(RegisterSlice { start, count }) => {
+                let index = signed_index_to_unsigned(index, count).min(count);
+                let range = if is_slice_to {
+                    start..start + index
+                } else {
+                    start + index..start + count
+                };
+                KTuple::from(&self.registers[range]).into()
             }
             Str(s) => {
                 let index = signed_index_to_unsigned(index, s.len());
